@@ -483,7 +483,7 @@ func statefulZoo() []zoo.Named {
 
 func runC15Stateful(c *Cfg) {
 	r := c.Rep
-	n := c.Pick(6000, 80000)
+	n := c.Pick(6000, 300000)
 	parallel(c, n, func(i int) {
 		cs := genStoreCase(c, 1_000_000+i, 120)
 		// interleave in-place mutations
@@ -564,7 +564,7 @@ func runC15(c *Cfg) {
 		}
 	}
 	r.Sample("zoo", map[string]any{"names": zooNames(fixed)})
-	n := c.Pick(100000, 1500000)
+	n := c.Pick(100000, 4000000)
 	parallel(c, n, func(i int) {
 		vc := ValCase{Family: "generated", Gen: i, Depth: 1 + i%4, Seed: c.Seed}
 		var v any
